@@ -47,7 +47,8 @@ type sweepCase struct {
 }
 
 // scriptedScenario (set per case): a short fixed script "extend, extend, fork seen through a gap,
-// extend, fork seen through a gap" instead of random actions; swept with every fault placement.
+// flip back to the abandoned branch, extend, fork with a far head" instead of random actions; swept
+// with every fault placement.
 var scriptedScenario bool
 
 const scriptedBase = 1000
@@ -417,17 +418,18 @@ func runScenario(ctx context.Context, env *vlib.Env, rep *vlib.Reporter, idx int
 	}
 
 	forks := 0
+	var abandoned []*blockInfo
 	steps := 14 + r.Intn(10)
 	ok := true
 	jumped := false
 	scripted := scriptedScenario
 	if scripted {
-		steps = 5
+		steps = 6
 	}
 	for step := 0; step < steps && ok; step++ {
 		act := r.Intn(10)
 		if scripted {
-			act = []int{0, 0, 7, 0, 7}[step]
+			act = []int{0, 0, 7, 9, 0, 7}[step] // extend, extend, fork seen through a gap, flip back, extend, fork with a far head
 		}
 		if bigJump && !jumped && step == 3 {
 			act = 9
@@ -464,11 +466,18 @@ func runScenario(ctx context.Context, env *vlib.Env, rep *vlib.Reporter, idx int
 			}
 			d := r.Intn(11)
 			below, gap, extra := r.Chance(1, 4), r.Chance(1, 3), r.Intn(4)
+			if r.Chance(1, 5) {
+				// the head after the fork is far ahead of the synced block (more than the assumed depth)
+				gap, extra = true, 11+r.Intn(8)
+			}
 			if scripted {
 				// the scripted scenario: a shallow fork whose first new head is not ahead of the
 				// synced block, then a head two or more blocks further (reorg visible only through
-				// the gap check)
+				// the gap check); the second time the next head is far ahead
 				d, below, gap, extra = 1+step%3, true, true, 2
+				if step >= 5 {
+					extra = 14
+				}
 			}
 			if int64(d) > pos {
 				d = int(pos)
@@ -502,7 +511,8 @@ func runScenario(ctx context.Context, env *vlib.Env, rep *vlib.Reporter, idx int
 				}
 				variant = "below-synced+1"
 			}
-			script += fmt.Sprintf(" fork(depth=%d,first=%s)", d, variant)
+			script += fmt.Sprintf(" fork(depth=%d,first=%s,extra=%d)", d, variant, extra)
+			abandoned = append(abandoned, head)
 			forks++
 			rep.Obs("fork_switches", 1)
 			rep.Obs("fork_first_head_"+variant, 1)
@@ -517,6 +527,38 @@ func runScenario(ctx context.Context, env *vlib.Env, rep *vlib.Reporter, idx int
 			}
 			if variant == "below-synced+1" && gap {
 				rep.Obs("fork_below_then_gap", 1)
+			}
+		case act == 9 && !bigJump && len(abandoned) > 0:
+			// the chain flips back to a branch it abandoned earlier (that branch grows past the
+			// current one); admissible if it replaces at most the assumed depth and its first new
+			// head is at most one past the synced block
+			a := abandoned[len(abandoned)-1]
+			abandoned = abandoned[:len(abandoned)-1]
+			anc := map[*blockInfo]bool{}
+			for x := head; x != nil; x = x.parent {
+				anc[x] = true
+			}
+			lca := a
+			for lca != nil && !anc[lca] {
+				lca = lca.parent
+			}
+			pos := dbPos()
+			if lca == nil || head.b.Number()-lca.b.Number() > 10 || int64(a.b.Number()) > pos || anc[a] {
+				continue
+			}
+			script += fmt.Sprintf(" flip-back(to=%d)", a.b.Number())
+			rep.Obs("flips_back_to_an_abandoned_branch", 1)
+			abandoned = append(abandoned, head)
+			head = a
+			// the old branch must become the longer one
+			for head.b.Number() <= abandoned[len(abandoned)-1].b.Number() {
+				head = w.extend(head)
+				if int64(head.b.Number()) == pos+1 {
+					ok = observe(head)
+				}
+			}
+			if ok {
+				ok = observe(head)
 			}
 		default:
 			if bigJump && !jumped {
